@@ -149,6 +149,7 @@ type Exec struct {
 	tracing bool
 	cur     *Frame
 
+	raceSeen   map[string]bool
 	forks      int
 	solverDead bool
 	witness    *Violation
@@ -466,6 +467,10 @@ func (ex *Exec) global(g *ssa.Global) *Cell {
 	if !ok {
 		c = ex.newCell(ex.zero(g.Type().(*types.Pointer).Elem()))
 		c.tag = "global " + g.String()
+		if g.Pkg != nil && strings.HasPrefix(g.Pkg.Pkg.Path(), nutsMod) && !strings.HasPrefix(g.Name(), "v") && !strings.HasPrefix(g.Name(), "init$") && g.Pos().IsValid() &&
+			!strings.Contains(ex.eng.prog.Fset.Position(g.Pos()).Filename, "zz_verif_") {
+			c.global, c.shared = true, true
+		}
 		ex.globals[g] = c
 		// lazily give sentinel errors of uninitialised packages a unique identity
 		if g.Pkg != nil && !ex.eng.shouldInit(g.Pkg.Pkg.Path()) {
@@ -782,7 +787,16 @@ func (ex *Exec) run(fr *Frame, b *ssa.BasicBlock) Value {
 				if !ok {
 					panic(pathAbort{why: fmt.Sprintf("FieldAddr on %T in %s", p.v, fr.fn), incomplete: true})
 				}
-				ex.set(fr, x, sv.f[x.Field])
+				fc := sv.f[x.Field]
+				if ex.tracing && fc.shared && (fc.tag == "" || fc.tag == "shared") {
+					if st, ok := x.X.Type().Underlying().(*types.Pointer).Elem().Underlying().(*types.Struct); ok {
+						fc.tag = st.Field(x.Field).Name()
+						if strings.HasPrefix(p.tag, "opt") {
+							fc.tag = "opt." + fc.tag
+						}
+					}
+				}
+				ex.set(fr, x, fc)
 			case *ssa.Field:
 				ex.set(fr, x, copyVal(ex.get(fr, x.X).(*StructV).f[x.Field].v))
 			case *ssa.UnOp:
